@@ -359,10 +359,8 @@ func (p *Parser) parseStruct(call *ast.CallExpr, info *types.Info, filePath stri
 		isPointer = true
 	}
 
+	// Without field names wire fills no field at all; only "*" means every field.
 	fields := extractStringFields(call.Args[1:])
-	if len(fields) == 0 {
-		fields = []string{"*"}
-	}
 
 	return &WireStruct{
 		baseWirePattern: baseWirePattern{
